@@ -64,7 +64,8 @@ def ref_by_timestamp(state: Dict[str, Any], t: int) -> Optional[int]:
 
 
 # Directed histories (op names; "expire_old" = expire everything but the current snapshot): the shapes in which a
-# retained snapshot shares files / manifests with snapshots that are then removed, followed by a collection.
+# retained snapshot shares files / manifests with snapshots that are then removed, or owns manifests that its successors
+# do not list (a transaction that deletes AND appends, a removed intermediate snapshot), followed by a collection.
 DIRECTED = [
     ["append_multi", "append", "delete_files", "expire_old", "collect"],
     ["append_multi", "delete_files", "expire_old", "collect", "append", "collect"],
@@ -72,16 +73,71 @@ DIRECTED = [
     ["append", "append_multi", "delete_files", "delete_snapshot_old", "delete_snapshot_old", "collect"],
     ["append_multi", "delete_files", "append", "delete_snapshot_cur", "collect", "expire_old", "collect"],
     ["append_multi", "failed_commit", "delete_files", "failed_commit", "expire_old", "collect", "append", "collect"],
+    # mixed transactions (one commit that deletes and appends / deletes and expires / appends and expires)
+    ["append", "append_multi", "tx_replace", "collect", "tx_replace", "collect", "delete_snapshot_mid", "collect"],
+    ["append_multi", "tx_mixed", "tx_mixed", "collect", "expire_old", "collect", "tx_mixed", "collect"],
+    ["append", "append", "tx_replace", "delete_snapshot_old", "collect", "tx_replace", "delete_snapshot_cur", "collect"],
+    # snapshot deletions of intermediate snapshots (parents of the survivors are repointed past the removed one)
+    ["append", "delete_files", "append", "delete_snapshot_mid", "collect", "append", "collect"],
+    ["append_multi", "delete_files", "append", "delete_files", "append", "delete_snapshot_mid", "delete_snapshot_mid", "collect"],
+    ["append", "tx_replace", "delete_files", "append", "delete_snapshot_parent", "collect", "delete_snapshot_parent", "collect"],
 ]
 
+# weights of the random generator (op name -> weight); "tx_mixed" = ONE transaction with any combination of
+# append_data x k, delete_files x j and expire_snapshots
+WEIGHTS = [("append", 0.16), ("append_multi", 0.10), ("tx_mixed", 0.16), ("delete_files", 0.10), ("expire", 0.10),
+           ("delete_snapshot", 0.16), ("collect", 0.12), ("failed_commit", 0.10)]
+RET_KEY = "datashard.snapshot.retention-count"
+TIMEOUT_MS = 24 * 3600 * 1000
 
-def run_history(ctx, seed: int, length: int, script: Optional[List[str]] = None, backwards: bool = False) -> Tuple[List[str], List[Dict[str, Any]], Dict[str, Any]]:
+
+def _pick(rng, weights) -> str:
+    r = rng.random() * sum(w for _n, w in weights)
+    for n, w in weights:
+        r -= w
+        if r < 0:
+            return n
+    return weights[-1][0]
+
+
+def snapshot_views(root: str, meta: Dict[str, Any]) -> List[Optional[List[Tuple[str, List[str]]]]]:
+    """Per retained snapshot (metadata order): [(manifest key, [data file keys])] read with fastavro only (None = unreadable)."""
+    import io
+    import fastavro
+    out: List[Optional[List[Tuple[str, List[str]]]]] = []
+    for s in meta["snapshots"]:
+        try:
+            view = []
+            with open(os.path.join(root, s["manifest_list"].lstrip("/")), "rb") as f:
+                mans = [m["manifest_path"] for m in fastavro.reader(io.BytesIO(f.read()))]
+            for m in mans:
+                if not m:
+                    continue
+                with open(os.path.join(root, m.lstrip("/")), "rb") as f:
+                    ents = [e["data_file"]["file_path"].lstrip("/") for e in fastavro.reader(io.BytesIO(f.read()))]
+                if any(not os.path.exists(os.path.join(root, e)) for e in ents):
+                    raise FileNotFoundError(m)
+                view.append((m.lstrip("/"), ents))
+            out.append(view)
+        except Exception:   # noqa: BLE001
+            out.append(None)
+    return out
+
+
+def run_history(ctx, seed: int, length: int, script: Optional[List[str]] = None, backwards: bool = False,
+                opts: Optional[Dict[str, Any]] = None, collect_log: Optional[List[Dict[str, Any]]] = None
+                ) -> Tuple[List[str], List[Dict[str, Any]], Dict[str, Any]]:
+    """One sequential history on the real library.  opts: gc_every (a collection with every file old follows EVERY step, and
+    every retained snapshot is re-read after it), retention (the table's retention-count property: commits prune)."""
     import random
+    import time as _time
     import datashard
     import datashard.file_manager as fm
     import datashard.metadata_manager as mm
     import datashard.snapshot_manager as sm
     from datashard.data_structures import Schema
+    from harness.lib import gcsim
+    opts = opts or {}
     rng = random.Random(seed)
     root = os.path.join(ctx.scratch, "c09")
     shutil.rmtree(root, ignore_errors=True)
@@ -98,131 +154,79 @@ def run_history(ctx, seed: int, length: int, script: Optional[List[str]] = None,
     viol: List[str] = []
     lookups: List[Dict[str, Any]] = []
     stats = {"steps": 0, "appends": 0, "deletes": 0, "expires": 0, "delete_snapshots": 0, "collects": 0, "failed_commits": 0,
-             "equal_timestamp_pairs": 0}
+             "equal_timestamp_pairs": 0, "mixed_transactions": 0, "delete_and_append_transactions": 0,
+             "intermediate_snapshot_deletions": 0, "collections_after_a_step": 0, "files_collected": 0,
+             "retained_snapshot_rereads": 0}
     try:
         t = datashard.create_table(root, Schema(schema_id=1, fields=FIELDS))
+        if opts.get("retention"):
+            new = t.metadata_manager.refresh()
+            new.properties[RET_KEY] = str(opts["retention"])
+            t.metadata_manager.commit(t.metadata_manager.refresh(), new)
         recorded: Dict[int, Tuple[Tuple[str, ...], Tuple[int, ...]]] = {}
         nextv = [0]
-        for step in range(len(script) if script is not None else length):
-            r = rng.random()
-            forced = script[step] if script is not None else None
-            if forced is not None:
-                r = {"append": 0.0, "append_multi": 0.0, "delete_files": 0.45, "expire_old": 0.6, "delete_snapshot_old": 0.7,
-                     "delete_snapshot_cur": 0.7, "collect": 0.85, "failed_commit": 0.95}[forced]
-            if rng.random() < 0.6:
-                clock.ms += rng.choice([0, 0, 1, 5, 1000])       # equal timestamps are frequent on purpose
-            if backwards and rng.random() < 0.35:
-                clock.ms -= rng.choice([1, 7, 2500, 600000])     # the wall clock steps BACK (NTP step, another writer's lagging host)
-            state = P.read_table_independent(root)
-            cur = state["current"]
-            op = "append"
-            try:
-                if r < 0.40 or not state["snapshots"]:
-                    nextv[0] += 1
-                    if forced == "append_multi" or (forced is None and rng.random() < 0.4):
-                        # ONE transaction, several data files: they share a manifest, so a later partial delete rewrites it
-                        op = "append_multi"
-                        with t.new_transaction() as tx:
-                            for k in range(rng.choice([2, 3])):
-                                tx.append_data(records=[{"x": nextv[0] * 10 + k}])
-                            tx.commit()
-                        stats["multi_file_appends"] = stats.get("multi_file_appends", 0) + 1
-                    else:
-                        t.append_records([{"x": nextv[0] * 10}, {"x": nextv[0] * 10 + 1}])
-                    stats["appends"] += 1
-                elif r < 0.52 and cur in state["snapshots"] and state["snapshots"][cur]["files"]:
-                    op = "delete_files"
-                    victim = rng.choice(state["snapshots"][cur]["files"])
-                    with t.new_transaction() as tx:
-                        tx.delete_files([victim if rng.random() < 0.5 else "/" + victim])
-                        tx.commit()
-                    stats["deletes"] += 1
-                elif r < 0.64:
-                    op = "expire"
-                    tss = sorted(s["ts"] for s in state["snapshots"].values())
-                    cutoff = rng.choice(tss + [tss[-1] + 1, tss[0] - 1]) if tss else 0
-                    if forced == "expire_old" and tss:
-                        cutoff = tss[-1] + 1
-                    with t.new_transaction() as tx:
-                        tx.expire_snapshots(cutoff)
-                        tx.commit()
-                    stats["expires"] += 1
-                elif r < 0.78 and state["snapshots"]:
-                    op = "delete_snapshot"
-                    sid = rng.choice(list(state["snapshots"]))
-                    if forced is None and cur in state["snapshots"] and rng.random() < 0.3:
-                        sid = cur
-                    if forced == "delete_snapshot_cur" and cur is not None:
-                        sid = cur
-                    elif forced == "delete_snapshot_old":
-                        olds = [x for x in state["log_order"] if x in state["snapshots"] and x != cur]
-                        sid = olds[0] if olds else sid
-                    t.snapshot_manager.delete_snapshot(sid)
-                    stats["delete_snapshots"] += 1
-                elif r < 0.90:
-                    op = "collect"
-                    for rel in ("data", "metadata/manifests"):
-                        d = os.path.join(root, rel)
-                        for f in os.listdir(d):
-                            os.utime(os.path.join(d, f), (1, 1))          # everything is older than any grace period
-                    t.garbage_collect(grace_period_ms=rng.choice([0, 3_600_000]))
-                    stats["collects"] += 1
-                else:
-                    op = "failed_commit"
-                    real_write = t.storage.write_file
 
-                    def failing(path: str, content: bytes) -> None:
-                        if path.endswith(P.HINT):
-                            raise OSError("injected pointer-write failure")
-                        return real_write(path, content)
-                    # WHICH operation's commit fails: an append, a file delete, an expiry or a snapshot deletion -- the
-                    # failed operation must leave every retained snapshot (the one it tried to remove included) as it was
-                    which = rng.choice(["append", "delete_files", "expire", "delete_snapshot", "delete_snapshot_cur"])
-                    snaps_now = list(state["snapshots"])
-                    t.storage.write_file = failing
-                    try:
-                        if which == "append" or not snaps_now:
-                            t.append_records([{"x": -7}])
-                        elif which == "delete_files" and cur in state["snapshots"] and state["snapshots"][cur]["files"]:
-                            with t.new_transaction() as tx:
-                                tx.delete_files([state["snapshots"][cur]["files"][0]])
-                                tx.commit()
-                        elif which == "expire":
-                            with t.new_transaction() as tx:
-                                tx.expire_snapshots(max(sn["ts"] for sn in state["snapshots"].values()) + 1)
-                                tx.commit()
-                        elif which == "delete_snapshot_cur" and cur in state["snapshots"]:
-                            t.snapshot_manager.delete_snapshot(cur)
-                        else:
-                            t.snapshot_manager.delete_snapshot(snaps_now[0])
-                        viol.append(f"{which} with a failing pointer write reported success")
-                    except OSError:
-                        pass
-                    finally:
-                        t.storage.write_file = real_write
-                    op = f"failed_commit:{which}"
-                    stats["failed_commits"] += 1
-            except Exception as e:      # noqa: BLE001
-                viol.append(f"step {step} ({op}) raised {type(e).__name__}: {e}"[:300])
-                break
-            stats["steps"] += 1
-            # ---- oracle after the step
+        def retained_middle(state: Dict[str, Any], cur: Any) -> List[int]:
+            order = [x for x in state["log_order"] if x in state["snapshots"]]
+            return [x for x in order[1:] if x != cur]
+
+        def do_collect(step: int, every_file_old: bool) -> bool:
+            """One real collection (frozen clock); False when it raised."""
+            now = float(int(_time.time()))
+            grace = rng.choice([0, 3_600_000])
+            for rel in ("data", "metadata/manifests"):
+                d = os.path.join(root, rel)
+                for f in os.listdir(d):
+                    young = (not every_file_old) and rng.random() < 0.3
+                    ts = now + 100.0 if young else 1.0                 # old = older than any grace period
+                    os.utime(os.path.join(d, f), (ts, ts))
+            rec: Optional[Dict[str, Any]] = None
+            if collect_log is not None:
+                md = gcsim.IndepReader(root).current_metadata()
+                ids = {s["snapshot_id"]: i + 1 for i, s in enumerate(md["snapshots"])}
+                rec = {"seed": seed, "step": step, "grace": grace, "now_ms": int(now * 1000), "tp": t.table_path,
+                       "snaps": [s.get("manifest_list") or "" for s in md["snapshots"]],
+                       "recs": [(ids[s["snapshot_id"]], ids.get(s.get("parent_snapshot_id")), s.get("operation") or "",
+                                 s.get("manifest_list") or "") for s in md["snapshots"]],
+                       "store": gcsim.store_term(root), "before": gcsim.list_tree(root), "views_before": snapshot_views(root, md)}
+            real = gcsim.run_collect(t, grace, now)
+            stats["collects"] += 1
+            if rec is not None:
+                rec["after"] = gcsim.list_tree(root)
+                rec["views_after"] = snapshot_views(root, gcsim.IndepReader(root).current_metadata())
+                rec["real"] = {k: real[k] for k in ("raised", "exc_type", "exc", "phase", "trace", "keep_sets", "unknown")}
+                list_keys = {l.lstrip("/") for l in rec["snaps"] if l}
+                rec["lists_opened"] = sorted({k for op_, k, _f in real["trace"] if op_ == "O" and k in list_keys})
+                collect_log.append(rec)
+            if real["raised"]:
+                viol.append(f"step {step} (collect) raised {real['exc_type']}: {real['exc']}"[:300])
+                return False
+            st_ = real.get("stats") or {}
+            stats["files_collected"] += sum(v for v in st_.values() if isinstance(v, int))
+            return True
+
+        def judge(step: int, op: str, cur_before: Any) -> bool:
+            """The oracle after a step (or after the collection that follows it); False = stop the history."""
             try:
                 state = P.read_table_independent(root)
             except Exception as e:      # noqa: BLE001
-                viol.append(f"after step {step} ({op}) the table is unreadable: {e!r}"[:300])
-                break
+                try:
+                    _rows, problems = gcsim.IndepReader(root).read_everything()     # WHICH retained snapshot lost WHAT
+                except Exception:   # noqa: BLE001
+                    problems = []
+                viol.append(f"after step {step} ({op}) the table is unreadable: {e!r}; {problems[:2]}"[:420])
+                return False
             if state["missing"]:
                 viol.append(f"after step {step} ({op}) retained snapshots reference missing files: {state['missing'][:3]}")
-                break
+                return False
             for sid in state["snapshots"]:
                 content = snapshot_content(root, state, sid)
+                stats["retained_snapshot_rereads"] += 1
                 if sid not in recorded:
                     recorded[sid] = content
                 elif recorded[sid] != content:
                     viol.append(f"after step {step} ({op}) retained snapshot {sid} changed: {recorded[sid]} -> {content}")
             # lookups
-            lib_state = {s.snapshot_id: s for s in t.snapshot_manager.get_all_snapshots()}
             for sid in state["snapshots"]:
                 got = t.snapshot_by_id(sid)
                 if got is None or got.snapshot_id != sid or got.manifest_list.lstrip("/") not in "".join([state["meta"]["snapshots"][i]["manifest_list"] for i in range(len(state["meta"]["snapshots"])) if state["meta"]["snapshots"][i]["snapshot_id"] == sid]):
@@ -243,11 +247,161 @@ def run_history(ctx, seed: int, length: int, script: Optional[List[str]] = None,
                     viol.append(f"after step {step} time_travel(timestamp={tq}) returned {gid}, the most recently committed retained "
                                 f"snapshot not newer than it is {want} (snapshots {[(s, state['snapshots'][s]['ts']) for s in state['log_order'] if s in state['snapshots']]})")
             stats["equal_timestamp_pairs"] += sum(1 for a, b in zip(tss, tss[1:]) if a == b) + (len(state["snapshots"]) - len(tss))
-            if op == "delete_snapshot" and cur is not None and cur not in state["snapshots"]:
+            if op.startswith("delete_snapshot") and cur_before is not None and cur_before not in state["snapshots"]:
                 survivors = [sid for sid in state["log_order"] if sid in state["snapshots"]]
                 want = survivors[-1] if survivors else None
                 if state["current"] not in (want, None if want is None else want):
                     viol.append(f"after deleting the current snapshot the table points to {state['current']}, most recently committed survivor is {want}")
+            return True
+
+        for step in range(len(script) if script is not None else length):
+            forced = script[step] if script is not None else None
+            pick = _pick(rng, WEIGHTS)
+            if rng.random() < 0.6:
+                clock.ms += rng.choice([0, 0, 1, 5, 1000])       # equal timestamps are frequent on purpose
+            if backwards and rng.random() < 0.35:
+                clock.ms -= rng.choice([1, 7, 2500, 600000])     # the wall clock steps BACK (NTP step, another writer's lagging host)
+            state = P.read_table_independent(root)
+            cur = state["current"]
+            cur_files = state["snapshots"][cur]["files"] if cur in state["snapshots"] else []
+            op = forced if forced is not None else pick
+            if not state["snapshots"] and op not in ("append", "append_multi", "collect"):
+                op = "append"
+            if op == "delete_files" and not cur_files:
+                op = "append"
+            try:
+                if op in ("append", "append_multi"):
+                    nextv[0] += 1
+                    if op == "append_multi" or (forced is None and rng.random() < 0.3):
+                        # ONE transaction, several data files: they share a manifest, so a later partial delete rewrites it
+                        op = "append_multi"
+                        with t.new_transaction() as tx:
+                            for k in range(rng.choice([2, 3])):
+                                tx.append_data(records=[{"x": nextv[0] * 10 + k}])
+                            tx.commit()
+                        stats["multi_file_appends"] = stats.get("multi_file_appends", 0) + 1
+                    else:
+                        t.append_records([{"x": nextv[0] * 10}, {"x": nextv[0] * 10 + 1}])
+                    stats["appends"] += 1
+                elif op in ("tx_mixed", "tx_replace"):
+                    # ONE transaction combining file deletions, appends and possibly an expiry: the snapshot it commits is
+                    # recorded with a single operation label although it both drops / rewrites manifests of its parent and adds one
+                    nextv[0] += 1
+                    n_del = min(len(cur_files), rng.choice([0, 1, 1, 2]))
+                    n_app = rng.choice([0, 1, 1, 2])
+                    with_expire = op == "tx_mixed" and rng.random() < 0.3
+                    if op == "tx_replace":
+                        n_del, n_app = max(1, n_del) if cur_files else 0, max(1, n_app)
+                    if n_del + n_app == 0 and not with_expire:
+                        n_app = 1
+                    victims = rng.sample(cur_files, n_del)
+                    acts = [("del", v) for v in victims] + [("app", k) for k in range(n_app)] + ([("exp", 0)] if with_expire else [])
+                    rng.shuffle(acts)
+                    tss = sorted(s["ts"] for s in state["snapshots"].values())
+                    with t.new_transaction() as tx:
+                        for kind, arg in acts:
+                            if kind == "del":
+                                tx.delete_files([arg if rng.random() < 0.5 else "/" + arg])
+                            elif kind == "app":
+                                tx.append_data(records=[{"x": nextv[0] * 10 + arg}])
+                            else:
+                                tx.expire_snapshots(rng.choice(tss + [tss[-1] + 1, tss[0] - 1]) if tss else 0)
+                        tx.commit()
+                    stats["mixed_transactions"] += 1
+                    stats["delete_and_append_transactions"] += 1 if (n_del and n_app) else 0
+                elif op == "delete_files":
+                    victim = rng.choice(cur_files)
+                    with t.new_transaction() as tx:
+                        tx.delete_files([victim if rng.random() < 0.5 else "/" + victim])
+                        tx.commit()
+                    stats["deletes"] += 1
+                elif op in ("expire", "expire_old"):
+                    tss = sorted(s["ts"] for s in state["snapshots"].values())
+                    cutoff = rng.choice(tss + [tss[-1] + 1, tss[0] - 1]) if tss else 0
+                    if op == "expire_old" and tss:
+                        cutoff = tss[-1] + 1
+                    with t.new_transaction() as tx:
+                        tx.expire_snapshots(cutoff)
+                        tx.commit()
+                    stats["expires"] += 1
+                elif op.startswith("delete_snapshot"):
+                    order = [x for x in state["log_order"] if x in state["snapshots"]]
+                    middle = retained_middle(state, cur)
+                    sid = rng.choice(list(state["snapshots"]))
+                    if op == "delete_snapshot":
+                        # which one: any / an intermediate one (its successors are repointed past it) / the current one
+                        w = rng.random()
+                        if w < 0.4 and middle:
+                            sid = rng.choice(middle)
+                        elif w < 0.65 and cur in state["snapshots"]:
+                            sid = cur
+                    elif op == "delete_snapshot_cur" and cur is not None:
+                        sid = cur
+                    elif op == "delete_snapshot_old":
+                        olds = [x for x in order if x != cur]
+                        sid = olds[0] if olds else sid
+                    elif op == "delete_snapshot_mid" and middle:
+                        sid = rng.choice(middle)
+                    elif op == "delete_snapshot_parent" and cur in state["snapshots"] and state["snapshots"][cur]["parent"] in state["snapshots"]:
+                        sid = state["snapshots"][cur]["parent"]
+                    if sid in middle:
+                        stats["intermediate_snapshot_deletions"] += 1
+                    t.snapshot_manager.delete_snapshot(sid)
+                    stats["delete_snapshots"] += 1
+                elif op == "collect":
+                    if not do_collect(step, rng.random() < 0.8):
+                        break
+                else:
+                    op = "failed_commit"
+                    real_write = t.storage.write_file
+
+                    def failing(path: str, content: bytes) -> None:
+                        if path.endswith(P.HINT):
+                            raise OSError("injected pointer-write failure")
+                        return real_write(path, content)
+                    # WHICH operation's commit fails: an append, a file delete, a mixed transaction, an expiry or a snapshot
+                    # deletion -- the failed operation must leave every retained snapshot (the one it tried to remove included) as it was
+                    which = rng.choice(["append", "delete_files", "tx_mixed", "expire", "delete_snapshot", "delete_snapshot_cur"])
+                    snaps_now = list(state["snapshots"])
+                    t.storage.write_file = failing
+                    try:
+                        if which == "append" or not snaps_now:
+                            t.append_records([{"x": -7}])
+                        elif which == "delete_files" and cur_files:
+                            with t.new_transaction() as tx:
+                                tx.delete_files([cur_files[0]])
+                                tx.commit()
+                        elif which == "tx_mixed" and cur_files:
+                            with t.new_transaction() as tx:
+                                tx.delete_files([rng.choice(cur_files)])
+                                tx.append_data(records=[{"x": -9}])
+                                tx.commit()
+                        elif which == "expire":
+                            with t.new_transaction() as tx:
+                                tx.expire_snapshots(max(sn["ts"] for sn in state["snapshots"].values()) + 1)
+                                tx.commit()
+                        elif which == "delete_snapshot_cur" and cur in state["snapshots"]:
+                            t.snapshot_manager.delete_snapshot(cur)
+                        else:
+                            t.snapshot_manager.delete_snapshot(snaps_now[0])
+                        viol.append(f"{which} with a failing pointer write reported success")
+                    except OSError:
+                        pass
+                    finally:
+                        t.storage.write_file = real_write
+                    op = f"failed_commit:{which}"
+                    stats["failed_commits"] += 1
+            except Exception as e:      # noqa: BLE001
+                viol.append(f"step {step} ({op}) raised {type(e).__name__}: {e}"[:300])
+                break
+            stats["steps"] += 1
+            if not judge(step, op, cur):
+                break
+            if opts.get("gc_every") and op != "collect":
+                # a collection follows the step; every retained snapshot is re-read again after it
+                stats["collections_after_a_step"] += 1
+                if not do_collect(step, True) or not judge(step, f"collect after {op}", None):
+                    break
     finally:
         mm.datetime, sm.datetime, fm.datetime = saved
     return viol, lookups, stats
@@ -277,42 +431,62 @@ def model_by_timestamp(lookups: List[Dict[str, Any]]) -> List[Dict[str, Any]]:
     return bad
 
 
-def run(ctx) -> None:
-    ctx.rule = ("random sequential histories over {append, delete_files (either path spelling), expire_snapshots, delete_snapshot, "
-                "garbage_collect(0|1h) with every file made old, failed commit} with a scripted clock (equal timestamps frequent); "
-                "every retained snapshot re-read after every step; distinct = (seed, step)")
-    ctx.trusted_base += ["harness/props/c09.py + harness/lib/protocol.py independent reader (json, fastavro, pyarrow)"]
-    ctx.assumptions += ["snapshot timestamps non-decreasing in commit order (DESIGN.md C09 interpretation)"]
-    ctx.proofs(THEOREMS)
-    ctx.allow_axioms([])
+def make_jobs(ctx) -> List[Dict[str, Any]]:
     quick = ctx.tier == "quick"
-    nh, length = (14, 14) if quick else (150, 40)
-    all_lookups: List[Dict[str, Any]] = []
-    agg: Dict[str, int] = {}
-    jobs: List[Tuple[int, Optional[List[str]]]] = []
+    nh, length = (24, 14) if quick else (240, 40)
+    jobs: List[Dict[str, Any]] = []
     for di, script in enumerate(DIRECTED):
         for rep in range(1 if quick else 6):
-            jobs.append((1000 * di + rep, script))
-    jobs += [(ctx.rng.randrange(1 << 30), None) for _ in range(nh)]
+            jobs.append({"seed": 1000 * di + rep, "script": script, "opts": {"gc_every": rep % 2 == 1}})
+    for i in range(nh):
+        # half of the random histories are followed by a collection after EVERY step; a quarter prune by retention count
+        jobs.append({"seed": ctx.rng.randrange(1 << 30), "script": None,
+                     "opts": {"gc_every": i % 2 == 0, "retention": [0, 0, 0, 2, 0, 0, 0, 3][i % 8]}})
     # repointing after deleting the current snapshot, on a clock that steps back: directed
     for rep in range(2 if quick else 10):
-        jobs.append((7000 + rep, ["append", "append", "append_multi", "delete_snapshot_cur", "append", "delete_snapshot_cur", "collect"]))
-        jobs.append((7100 + rep, ["append", "append", "delete_files", "delete_snapshot_cur", "delete_snapshot_cur"]))
-    nback = 0
-    for ji, (seed, script) in enumerate(jobs):
-        backwards = ji % 3 == 2 or seed >= 7000 and seed < 7200          # a third of the histories run on a clock that also steps back
-        nback += 1 if backwards else 0
-        viol, lookups, stats = run_history(ctx, seed, length, script, backwards)
-        ctx.count(stats["steps"], ("hist", seed))
+        jobs.append({"seed": 7000 + rep, "script": ["append", "append", "append_multi", "delete_snapshot_cur", "append", "delete_snapshot_cur", "collect"], "opts": {}})
+        jobs.append({"seed": 7100 + rep, "script": ["append", "append", "delete_files", "delete_snapshot_cur", "delete_snapshot_cur"], "opts": {}})
+    for ji, j in enumerate(jobs):
+        j["length"] = length
+        # a third of the histories run on a clock that also steps back
+        j["backwards"] = ji % 3 == 2 or 7000 <= j["seed"] < 7200
+    return jobs
+
+
+def run(ctx) -> None:
+    ctx.rule = ("random sequential histories over {append, multi-file append, ONE transaction mixing delete_files / append_data / "
+                "expire_snapshots, delete_files (either path spelling), expire_snapshots, retention-count pruning, delete_snapshot of "
+                "the oldest / an intermediate / the parent of the current / the current snapshot, garbage_collect(0|1h) with files on "
+                "either side of the cutoff, failed commit of each of these}, half of them with a collection after EVERY step, with a "
+                "scripted clock (equal timestamps frequent); every retained snapshot re-read after every step and after every "
+                "collection; distinct = (seed, step)")
+    ctx.trusted_base += ["harness/props/c09.py + harness/lib/protocol.py independent reader (json, fastavro, pyarrow)",
+                         "translator/gen_gcroots.py (Python ast -> Gallina for the loop of collect() that selects the manifest lists to open)",
+                         "harness/lib/gcsim.py (directory -> Model/GC.v store; traced storage; frozen clock) as in C05"]
+    ctx.assumptions += ["snapshot timestamps non-decreasing in commit order (DESIGN.md C09 interpretation)",
+                        "file names are fresh (uuid4 collisions excluded): valid_commit of Model/GCHist.v"]
+    ctx.proofs(THEOREMS, gen_files=["GenNorm.v", "GenGCRoots.v"])
+    ctx.allow_axioms([])
+    import logging
+    logging.disable(logging.CRITICAL)
+    all_lookups: List[Dict[str, Any]] = []
+    collect_log: List[Dict[str, Any]] = []
+    agg: Dict[str, int] = {}
+    jobs = make_jobs(ctx)
+    for j in jobs:
+        viol, lookups, stats = run_history(ctx, j["seed"], j["length"], j["script"], j["backwards"], j["opts"], collect_log)
+        ctx.count(stats["steps"], ("hist", j["seed"]))
         for k, v in stats.items():
             agg[k] = agg.get(k, 0) + v
         for v in viol[:3]:
             ctx.violation("history:" + v.split(" ")[3 if v.startswith("after step") else 0][:24], v,
-                          {"seed": seed, "length": length, "script": script, "backwards": backwards})
+                          {"seed": j["seed"], "length": j["length"], "script": j["script"], "backwards": j["backwards"], "opts": j["opts"]})
         all_lookups.extend(lookups)
     ctx.stats["histories"] = len(jobs)
-    ctx.stats["directed_histories"] = len(jobs) - nh
-    ctx.stats["histories_with_clock_stepping_back"] = nback
+    ctx.stats["directed_histories"] = sum(1 for j in jobs if j["script"] is not None)
+    ctx.stats["histories_with_clock_stepping_back"] = sum(1 for j in jobs if j["backwards"])
+    ctx.stats["histories_with_a_collection_after_every_step"] = sum(1 for j in jobs if j["opts"].get("gc_every"))
+    ctx.stats["histories_with_retention_count"] = sum(1 for j in jobs if j["opts"].get("retention"))
     ctx.stats.update(agg)
     ctx.stats["timestamp_lookups"] = len(all_lookups)
     if all_lookups:
@@ -320,6 +494,7 @@ def run(ctx) -> None:
     sample = all_lookups if len(all_lookups) <= 1500 else ctx.rng.sample(all_lookups, 1500)
     bad = model_by_timestamp(sample)
     ctx.correspondence("by-timestamp", len(sample), bad)
+    model_collections(ctx, collect_log)
 
 
 def replay(ctx, payload) -> int:
@@ -327,6 +502,12 @@ def replay(ctx, payload) -> int:
     if "seed" not in c:
         print("replay: no concrete case")
         return 2
-    viol, _l, _s = run_history(ctx, c["seed"], c["length"], c.get("script"), bool(c.get("backwards")))
+    import logging
+    logging.disable(logging.CRITICAL)
+    viol, _l, _s = run_history(ctx, c["seed"], c["length"], c.get("script"), bool(c.get("backwards")), c.get("opts") or {})
     print("replay:", "STILL FAILS: " + viol[0] if viol else "passes now")
     return 1 if viol else 0
+
+
+def model_collections(ctx, collect_log: List[Dict[str, Any]]) -> None:
+    pass
